@@ -13,6 +13,8 @@ def make_run_one(prop, checkers_factory, nontrivial_rule, nhandles=1, fingerprin
         flags = sorted(world.flags)
         labels = [f'flag:{f}' for f in flags] + [f'op:{k}' for k, v in world.stats.items() for _ in range(0)]
         labels.append('history')
+        if case.get('lowered'):
+            labels.append('lowered-thresholds')
         labels.append(f'len:{min(len(case["ops"]) // 10 * 10, 60)}+')
         for kind, count in world.stats.items():
             labels.append(f'hist-with:{kind}')
